@@ -81,7 +81,7 @@ def run(chk, args):
             raise MachineryFault("model fact %s is %r (the denotation printed by SQLQuery.tla is not what the module claims)" % (k, facts.get(k)))
     chk.cov["model_facts"] = facts
     chk.cov["enumerated"] = counts
-    for k in ["histories", "cases", "partitions", "join cases", "t3 cases", "multi-column GROUP BY cases telling groups apart by a later column", "touchy cases", "cases with a non-empty answer", "partitions with a non-empty NULL part",
+    for k in ["histories", "cases", "partitions", "join cases", "t3 cases", "multi-column GROUP BY split cases", "touchy cases", "cases with a non-empty answer", "partitions with a non-empty NULL part",
               "histories with a transaction", "histories whose transaction removes rows"] + ["histories with " + s for s in NEED_STMT]:
         if not counts.get(k):
             raise MachineryFault("SQLQuery.tla enumerated no %s (vacuous run)" % k)
